@@ -3,6 +3,7 @@ package main
 import (
 	"encoding/json"
 	"errors"
+	"os"
 	"strings"
 
 	pipeline "github.com/buildkite/go-pipeline"
@@ -87,7 +88,11 @@ func runC15(args []string) {
 	nest := fl.int("nest", 0)
 	n := 0
 	samples := []any{}
-	readNDJSON(fl.str("cases", ""), func(_ int, c obj) {
+	casesFile := fl.str("cases", "")
+	if casesFile == "" {
+		casesFile = os.DevNull
+	}
+	readNDJSON(casesFile, func(_ int, c obj) {
 		n++
 		// every index-derived rendering choice comes from the case itself, so a
 		// single case replays exactly as it ran
@@ -256,5 +261,28 @@ func runC15(args []string) {
 		}
 		tw.emit(ev)
 	})
+	if fl.str("probes", "") != "" {
+		// fixed inputs for defects recorded in known_findings.json
+		// F28: a plain YAML timestamp as the value of an ADDITIONAL typed key (label) of a command step
+		for _, pr := range [][2]string{{"F28-timestamp-in-typed-field", "steps:\n  - command: x\n    label: 2024-01-01\n"}} {
+			c := normalize(obj{"form": "map", "keys": []any{"command"}, "type": "<absent>", "extra": "label", "rot": 0})
+			ev := obj{"c": c, "nest": 0, "top": false, "npre": 0, "probe": pr[0], "warn": false, "hard": false, "sentinel": "none", "nsteps": 0, "kind": "none"}
+			p, msg := guarded(func() {
+				pl, err := pipeline.Parse(strings.NewReader(pr[1]))
+				ev["warn"], ev["hard"], ev["sentinel"] = warning.Is(err), err != nil && !warning.Is(err), sentinelOf(err)
+				if err != nil {
+					ev["err"] = err.Error()
+				}
+				if pl != nil && len(pl.Steps) > 0 {
+					ev["nsteps"], ev["kind"] = len(pl.Steps), stepKind(pl.Steps[0])
+				}
+			})
+			ev["panic"] = p
+			if p {
+				ev["panicmsg"] = msg
+			}
+			tw.emit(ev)
+		}
+	}
 	writeSummary(fl.str("summary", ""), obj{"events": tw.n, "samples": samples})
 }
